@@ -1,5 +1,146 @@
-"""Counterexample search for a failed obligation (Kani concrete playback) + native replay."""
+"""Concrete failing inputs for a failed obligation, replayed on the real code.
+
+Verus gives no counterexample. For a *cell* obligation the obligation itself names a finite input domain (one table
+entry; one key of one layout under all 512 modifier sets x 2 modes), so the failing input is found by running the
+real code natively over that whole domain (replayer `cellcheck`) - complete, and by construction replayed.
+For a contract clause on a stateful function a Kani harness asserts the executable rendering of the same clause
+over symbolic inputs, Kani's concrete playback gives the values and the replayer runs them natively
+(engine/kanicex.py). Where neither produces an input the caller prints `no-failing-input-found`.
+"""
+import json
+import os
+import re
+
+from . import native, cells as cellsmod
+
+VERIF = os.path.dirname(os.path.dirname(os.path.abspath(__file__)))
+CTX_PREFIX = {'plain': [], 'e0': ['E0'], 'e1': ['E1']}
+
+
+def _ref():
+    return json.load(open(os.path.join(VERIF, 'spec', 'scancodes.json'), encoding='utf-8'))
+
+
+def native_cmd_for(prop, oid, info):
+    """replayer argument list for a cell obligation, or None"""
+    oid = oid.split('#')[0]
+    parts = oid.split('/')
+    if prop in ('C09', 'C10', 'C11') and len(parts) == 3:
+        return ['cellcheck', prop, parts[1], parts[2]]
+    if prop == 'C12' and len(parts) == 3:
+        return ['cellcheck', 'C12', parts[1], parts[2]]
+    if prop == 'C16' and len(parts) == 4:
+        return ['cellcheck', 'C16', parts[1], parts[2], parts[3]]
+    if prop == 'C17' and len(parts) == 3:
+        return ['cellcheck', 'C17', parts[1], parts[2]]
+    if prop == 'C15' and len(parts) == 3:
+        L, k = parts[1], parts[2]
+        if k in cellsmod.NUMPAD_DIGITS:
+            return ['cellcheck', 'C15', L, k, 'digit', '0x%X' % cellsmod.NUMPAD_DIGITS[k]]
+        if k in cellsmod.NUMPAD_OPS:
+            return ['cellcheck', 'C15', L, k, 'const', '0x%X' % cellsmod.NUMPAD_OPS[k]]
+        if k in cellsmod.EDITING:
+            return ['cellcheck', 'C15', L, k, 'const', '0x%X' % cellsmod.EDITING[k]]
+        if k == 'NumpadEnter':
+            return ['cellcheck', 'C15', L, k, 'enter']
+        if k == 'NumpadPeriod':
+            return ['cellcheck', 'C15', L, k, 'decimal', '0x%X' % cellsmod.DECIMAL.get(L, 0x2E)]
+    if prop == 'C03' and len(parts) == 4:
+        L, k, lv = parts[1], parts[2], parts[3]
+        ref = json.load(open(os.path.join(VERIF, 'spec', 'layouts', L + '.json'), encoding='utf-8'))['keys']
+        lvl = {'base': 0, 'shift': 1, 'altgr': 2}[lv]
+        v = ref[k][lvl]
+        acc = 'none' if not v or v == '?' else ','.join('%x' % ord(c) for c in v)
+        return ['cellcheck', 'C03', L, k, str(lvl), acc]
+    return None
+
+
+def scancode_cell(prop, oid, info, binpath):
+    parts = oid.split('#')[0].split('/')
+    ref = _ref()
+    if prop in ('C01', 'C02') and len(parts) == 4:
+        setn, ctx, code = parts[1], parts[2], parts[3]
+        seq = CTX_PREFIX[ctx] + [code[2:]]
+        cmd = ['bytes', setn[-1]] + seq
+        rc, out, err = native.run(binpath, cmd)
+        key = ref[setn][ctx].get(code)
+        expected = ('%s/Down' % key) if key else 'Err:UnknownKeyCode'
+        if setn == 'set2' and ctx == 'plain' and code in ('0x00', '0xAA'):
+            expected = '%s/SingleShot' % key
+        observed = out.split(' ')[-1] if out else err
+        return {'input': {'scancode_set': setn, 'bytes': ['0x' + b for b in seq]}, 'expected': expected, 'observed': observed,
+                'native_cmd': cmd, 'reproduced': observed != expected}
+    if prop == 'C13' and len(parts) == 4:
+        direction, ctx, code = parts[1], parts[2], parts[3]
+        x = json.load(open(os.path.join(VERIF, 'spec', 'i8042_xlat.json'), encoding='utf-8'))['xlat']
+        tables = native.hints(info, 'tables')
+        if direction == 'forward':
+            c1 = x[code]
+            s2 = CTX_PREFIX[ctx] + [code[2:]]
+            s1 = CTX_PREFIX[ctx] + [c1[2:]]
+            o2 = native.run(binpath, ['bytes', '2'] + s2)[1].split(' ')[-1]
+            o1 = native.run(binpath, ['bytes', '1'] + s1)[1].split(' ')[-1]
+            return {'input': {'set2_bytes': ['0x' + b for b in s2], 'set1_bytes (i8042 translation)': ['0x' + b for b in s1]},
+                    'expected': 'identical key events', 'observed': 'Set 2: %s ; Set 1: %s' % (o2, o1),
+                    'native_cmd': ['bytes', '2'] + s2, 'native_cmd2': ['bytes', '1'] + s1, 'reproduced': o1 != o2}
+        else:
+            s1 = CTX_PREFIX[ctx] + [code[2:]]
+            o1 = native.run(binpath, ['bytes', '1'] + s1)[1].split(' ')[-1]
+            where = []
+            for c2ctx in ('plain', 'e0', 'e1'):
+                for c in range(256):
+                    if tables['set2/' + c2ctx][c].split('/')[0] == o1.split('/')[0] and not tables['set2/' + c2ctx][c].startswith('Err'):
+                        where.append('%s 0x%02X (i8042 gives %s %s)' % (c2ctx, c, c2ctx, x.get('0x%02X' % c, 'no translation')))
+            return {'input': {'set1_bytes': ['0x' + b for b in s1]}, 'expected': 'the key\'s Set 2 sequence translates to exactly this Set 1 sequence',
+                    'observed': 'Set 1 gives %s; Set 2 expresses that key at: %s' % (o1, '; '.join(where) or 'nowhere'),
+                    'native_cmd': ['bytes', '1'] + s1, 'reproduced': True}
+    if prop == 'C19' and len(parts) == 4:
+        setn, ctx, code = parts[1], parts[2], int(parts[3], 16)
+        tables = native.hints(info, 'tables')
+        me = tables['%s/%s' % (setn, ctx)][code]
+        key = me.split('/')[0]
+        same = []
+        for c2ctx in ('plain', 'e0', 'e1'):
+            for c in range(256 if setn == 'set2' else 128):
+                v = tables['%s/%s' % (setn, c2ctx)][c]
+                if not v.startswith('Err') and v != 'None' and v.split('/')[0] == key and (c2ctx, c) != (ctx, code):
+                    same.append('%s 0x%02X' % (c2ctx, c))
+        seq = CTX_PREFIX[ctx] + ['%02X' % code]
+        return {'input': {'scancode_set': setn, 'bytes': ['0x' + b for b in seq]}, 'expected': 'no other sequence of the set denotes %s' % key,
+                'observed': '%s is also produced by: %s' % (key, ', '.join(same) or '(none found)'), 'native_cmd': ['bytes', setn[-1]] + seq,
+                'reproduced': bool(same)}
+    return None
 
 
 def find(prop, failure, R, info):
-    return {'counterexample': None, 'counterexample_search': 'no generator for this obligation kind'}
+    oid = failure.oid or ''
+    ob = R.get(oid, {})
+    try:
+        binpath = native.build(info)
+    except native.NativeError as e:
+        return {'counterexample': None, 'counterexample_search': 'replayer does not build: %s' % e}
+    if ob.get('kind') == 'cell' or re.match(r'^C\d\d/', oid):
+        cmd = native_cmd_for(prop, oid, info)
+        if cmd:
+            rc, out, err = native.run(binpath, cmd)
+            if out.startswith('FAILS'):
+                return {'counterexample': {'found_by': 'exhaustive native enumeration of the cell\'s whole input domain on the real code (Verus gives no counterexample)',
+                                           'description': out, 'native_cmd': cmd},
+                        'native_replay': {'cmd': cmd, 'output': out, 'reproduced': True}}
+            if out.startswith('HOLDS'):
+                return {'counterexample': None, 'native_replay': {'cmd': cmd, 'output': out, 'reproduced': False},
+                        'spurious': True,
+                        'counterexample_search': 'the real code satisfies this cell on its whole finite input domain (native exhaustive run): the verifier\'s rejection is not a violation'}
+        sc = scancode_cell(prop, oid, info, binpath)
+        if sc:
+            if sc['reproduced']:
+                return {'counterexample': {'found_by': 'the obligation names the concrete input; executed natively on the real code', **sc},
+                        'native_replay': {'cmd': sc['native_cmd'], 'output': sc['observed'], 'reproduced': True}}
+            return {'counterexample': None, 'native_replay': {'cmd': sc['native_cmd'], 'output': sc['observed'], 'reproduced': False}, 'spurious': True,
+                    'counterexample_search': 'the real code gives the expected result for this cell: the verifier\'s rejection is not a violation'}
+    # contract clauses / lemmas: Kani concrete playback
+    try:
+        from . import kanicex
+        return kanicex.find(prop, failure, R, info, binpath)
+    except ImportError:
+        return {'counterexample': None, 'counterexample_search': 'no generator for this obligation kind'}
